@@ -146,6 +146,16 @@ func (cr *cliReplayer) runConcrete(j *Job, m *ConcreteModel, aid string) *Native
 			if code != 0 {
 				return fail("gtree version exited non-zero")
 			}
+			// an empty document is a valid input wherever it comes from: a pipe, or the null device (no stdin at all: cron, CI)
+			for _, args := range [][]string{{"output"}, {"output", "--format", "json"}, {"mkdir", "--dry-run"}, {"verify"}} {
+				for _, in := range []string{"", stdinDevNull} {
+					code, out, _ := cr.exec(cr.bin, cr.dir, in, args...)
+					res.Asserts["empty-input"]++
+					if code != 0 || out != "" {
+						return fail(fmt.Sprintf("gtree %s on an empty document (%q): exit %d, stdout %q; the library returns nil and writes nothing", strings.Join(args, " "), in, code, clip(out)))
+					}
+				}
+			}
 			// 'template' piped into 'output' renders the documented sample tree (the block of /repo/README.md that
 			// follows "$ gtree template | gtree output")
 			if want, ok := readmeSampleTree(); ok {
@@ -368,6 +378,8 @@ func snapshotDir(dir string) string {
 	return strings.Join(ents, " ")
 }
 
+const stdinDevNull = "\x00/dev/null"
+
 func (cr *cliReplayer) exec(bin, dir, stdin string, args ...string) (int, string, string) {
 	ctx, cancel := context.WithTimeout(context.Background(), 30*time.Second)
 	defer cancel()
@@ -375,6 +387,9 @@ func (cr *cliReplayer) exec(bin, dir, stdin string, args ...string) (int, string
 	cmd.Dir = dir
 	cmd.Env = append(os.Environ(), "NO_COLOR=1")
 	cmd.Stdin = strings.NewReader(stdin)
+	if stdin == stdinDevNull {
+		cmd.Stdin = nil // the null device: an empty document on a character device
+	}
 	var out, errb bytes.Buffer
 	cmd.Stdout = &out
 	if cr.stdoutPath != "" {
